@@ -187,6 +187,11 @@ def pmsim_directed(ctx, V, exe, n):
         w = dict(sb.describe(), events=rb.sim.events)
         for bad in pmcheck.mon_alive(rb, sb) + pmcheck.mon_no_wedge(rb, sb):
             V.violation(bad[0], bad[1], w, bad[2])
+        # a sick device must not cost the daemon anything that runs out: descriptors (every session of the healthy devices ends when the
+        # limit is reached), children
+        for bad in pmcheck.mon_c20(rb, sb):
+            if bad[0] in ("fd-ledger", "children"):
+                V.violation("interference", "resource-" + bad[1], w, "while d1 misbehaves (%s): %s" % (sb.tags.get("kind"), bad[2]))
         if ra.client_out.get(0) != rb.client_out.get(0):
             V.violation("interference", "client-stream", dict(w, healthy=ra.client_out.get(0, b"").decode("latin-1")[-500:], with_sick=rb.client_out.get(0, b"").decode("latin-1")[-500:]),
                         "the client only names nodes of d0, yet its replies differ when d1 misbehaves (%s)" % sb.tags.get("kind", "?"))
